@@ -32,30 +32,40 @@ package phase5
 //@ spec bendX(n *Node) float64 = n.X + n.W / 2.0
 //@ spec bendY(g *DGraph, n *Node) float64 = n.Y + g.Layers[n.Layer].H / 2.0
 
-// polyDone(g, r): the polyline of a non-flat route r is complete
-//@ spec polyDone(g *DGraph, r routableEdge) bool =
+// polyEnds(r): the polyline of a non-flat route r has one point per route node and is anchored at its end nodes
+//@ spec polyEnds(r routableEdge) bool =
 //@   len(r.Points) == len(r.ns)
 //@   && r.Points[0][0] == startX(r.ns[0]) && r.Points[0][1] == startY(r.ns[0])
 //@   && r.Points[len(r.ns)-1][0] == startX(r.ns[len(r.ns)-1]) && r.Points[len(r.ns)-1][1] == endY(r.ns[len(r.ns)-1])
-//@   && (forall t int :: 0 < t && t < len(r.ns) - 1 ==> r.Points[t][0] == bendX(r.ns[t]) && r.Points[t][1] == bendY(g, r.ns[t]))
 
+// polyBends(g, r): every inner point is the bend of its route node (centre x, vertical middle of its own band)
+//@ spec polyBends(g *DGraph, r routableEdge) bool =
+//@   forall t int :: 0 < t && t < len(r.ns) - 1 ==> r.Points[t][0] == bendX(r.ns[t]) && r.Points[t][1] == bendY(g, r.ns[t])
+
+//@ spec polyDone(g *DGraph, r routableEdge) bool = polyEnds(r) && polyBends(g, r)
+
+// Views: the end anchors carry C05 (and C06's point count), the bends carry C06/C12; a change that only moves bends
+// does not raise the end-point check.
 //@ func execPolylineRouting
 //@   requires g != nil && routesOK(routes)
 //@   requires[noflat|C17] forall i int :: 0 <= i && i < len(routes) ==> routes[i].From.Layer != routes[i].To.Layer
 //@   requires forall i int :: 0 <= i && i < len(routes) ==> routes[i].Points == nil
 //@   modifies Edge.Points, Elems[[2]float64], alloc
-//@   ensures[poly] forall i int :: 0 <= i && i < len(routes) && routes[i].From.Layer != routes[i].To.Layer ==> polyDone(g, routes[i])
+//@   ensures[ends|C05,C06] forall i int :: 0 <= i && i < len(routes) && routes[i].From.Layer != routes[i].To.Layer ==> polyEnds(routes[i])
+//@   ensures[bends|C06,C12] forall i int :: 0 <= i && i < len(routes) && routes[i].From.Layer != routes[i].To.Layer ==> polyBends(g, routes[i])
 //@   loop range(routes)#1 index c
 //@     invariant forall i int :: c <= i && i < len(routes) ==> routes[i].Points == nil
 //@     invariant forall i int :: 0 <= i && i < c ==> allocatedArr(routes[i].Points)
-//@     invariant forall i int :: 0 <= i && i < c && routes[i].From.Layer != routes[i].To.Layer ==> polyDone(g, routes[i])
+//@     invariant[|C05,C06] forall i int :: 0 <= i && i < c && routes[i].From.Layer != routes[i].To.Layer ==> polyEnds(routes[i])
+//@     invariant[|C06,C12] forall i int :: 0 <= i && i < c && routes[i].From.Layer != routes[i].To.Layer ==> len(routes[i].Points) == len(routes[i].ns) && polyBends(g, routes[i])
 //@   loop range(r.ns[1:len(r.ns)-1])#1 index j
 //@     invariant forall i int :: c < i && i < len(routes) ==> routes[i].Points == nil
 //@     invariant forall i int :: 0 <= i && i < c ==> allocatedArr(routes[i].Points) && arr(routes[i].Points) != arr(r.Points)
-//@     invariant forall i int :: 0 <= i && i < c && routes[i].From.Layer != routes[i].To.Layer ==> polyDone(g, routes[i])
+//@     invariant[|C05,C06] forall i int :: 0 <= i && i < c && routes[i].From.Layer != routes[i].To.Layer ==> polyEnds(routes[i])
+//@     invariant[|C06,C12] forall i int :: 0 <= i && i < c && routes[i].From.Layer != routes[i].To.Layer ==> len(routes[i].Points) == len(routes[i].ns) && polyBends(g, routes[i])
 //@     invariant allocatedArr(r.Points) && len(r.Points) == 1 + j
-//@     invariant r.Points[0][0] == startX(r.ns[0]) && r.Points[0][1] == startY(r.ns[0])
-//@     invariant forall t int :: 0 < t && t <= j ==> r.Points[t][0] == bendX(r.ns[t]) && r.Points[t][1] == bendY(g, r.ns[t])
+//@     invariant[|C05,C06] r.Points[0][0] == startX(r.ns[0]) && r.Points[0][1] == startY(r.ns[0])
+//@     invariant[|C06,C12] forall t int :: 0 < t && t <= j ==> r.Points[t][0] == bendX(r.ns[t]) && r.Points[t][1] == bendY(g, r.ns[t])
 
 // orthoRouteOK: shape the orthogonal router relies on - the route descends one band per step, inner nodes are
 // zero-size virtual nodes, every route node sits at the y of its band, route ends are the edge's ends
